@@ -199,8 +199,9 @@ def gen_usage_case(rng, k2=False):
     app = "".join(rng.choice(LETTERS + "_-") for _ in range(n))
     about = "" if rng.random() < 0.5 else "\n".join(gen_text(rng, maxwords=10)[:80] for _ in range(rng.randint(1, 3)))
     if k2:
-        long_line = " ".join(gen_word(rng, rng.randint(2, 9)) for _ in range(16))
-        assert len(long_line) > 80
+        long_line = gen_word(rng, rng.randint(2, 9))
+        while len(long_line) <= 80 + rng.randint(0, 30):
+            long_line += " " + gen_word(rng, rng.randint(2, 9))
         if groups and opts and rng.random() < 0.5:
             gi = opts[0]["group"] or 1
             opts[0]["group"] = gi
@@ -280,10 +281,42 @@ class C15(Check):
     technique = ("Coq proof over an executable model of parser::usage / group::usage / base::format / format_padded "
                  "(induction on the word list with the wrapping invariant; token algebra for content and order) + "
                  "extraction-based differential test against the C++ on four kinds of target stream")
-    level_text = ""
-    level_note = ""
-    rule = ""
-    modelled_note = ""
+    level_text = ("Eighteen theorems proved in Coq for ALL declarations, all texts/columns/widths and all orders of the long toggles, over a "
+                  "Gallina model that follows parser::usage, group::usage, base::format, the three format_* families and format_padded "
+                  "statement by statement: the text is no function of the target stream (and the pre-repair head line was); groups in "
+                  "creation order, blocks in declaration order, an empty group prints nothing; the layout-free token sequence of the whole "
+                  "text equals synopsis entries ++ about ++ per group (name, description, per option: spelling, placeholder, description, "
+                  "environment hint iff declared, default iff declared) - nothing lost, doubled or reordered; the synopsis mentions every "
+                  "declaration; format_padded emits the words in order separated only by layout; the width rule for format_padded "
+                  "(both cases of the left column) and for the whole text under the K2 hypothesis (with a refutation without it); the "
+                  "oracle's checks accept the model's text on every input; split/replace_all never exhaust their fuel. The model is tied "
+                  "to /repo by running the extracted model and the real code (ASan/UBSan build of the working tree) on the same cases and "
+                  "comparing the exact text, written to four kinds of stream; the oracle (extracted spec functions) judges every difference")
+    level_note = ("trusted: Coq kernel, ExtrOcamlBasic extraction, OCaml compiler, the differential harness. Proved about the model only; "
+                  "model = code is tested (exact text, bounded-exhaustive + random), not proved. Only exercised by the driver, not "
+                  "proved: stream independence of the real code (fresh stringstream / stringstream with prior content / non-seekable "
+                  "ostream / std::cout with swapped rdbuf must receive identical text); std::setw + operator<<(char) padding, tellp(), "
+                  "std::map name order, std::sort on (signed) char, nitro::format's one-placeholder substitution (modelled as "
+                  "concatenation). The address order of the long toggles is forced by the driver (arena operator new during their "
+                  "declaration) and verified through the public API; if the implementation stopped using address order the exact-text "
+                  "comparison would report no-failing-input-found as long as the oracle accepts. Domain: well-formed declarations "
+                  "(unique option and group names, non-empty metavars, one-byte short names), left_pad/max_width >= 0, strings shorter "
+                  "than 2^31. The width theorems need texts without line breaks and an application name shorter than 72 bytes; outside "
+                  "that the oracle makes no width claim")
+    rule = ("(i) every single-declaration shape (kind x letter x flag x default x env x description) and all six address orders of three "
+            "long toggles; format_padded exhaustively over texts on {a, blank, tab} up to a length bound x indent {-1,0..3} x left_pad "
+            "{0..3} x max_width {0,2..6}; (ii) random declarations: 0-3 groups, 0-6 options of mixed kinds in interleaved group order, "
+            "names 1-30 bytes incl. prefixes of each other and no- names, descriptions of 0-40 words incl. words of 38-41, 71-73, 79-81 "
+            "bytes, double/leading/trailing blanks, tabs, rare line breaks, metavars and defaults with blanks, env names, app names of "
+            "0-100 bytes, random prior stream content, random address order of the long toggles; random format_padded calls aimed at "
+            "|w|+1 = max_width-left_pad +-1, indent = left_pad +-1, max_width <= left_pad, position -1; (iii) corpus. A usage case is "
+            "non-trivial when it declares at least one option, a format_padded case when the output has a line break or more than one "
+            "byte; distinct = distinct case line")
+    modelled_note = ("modelled, not verified: std::setw/operator<<(char) field-width semantics, tellp() of std::stringstream (= bytes written) "
+                     "and of a non-seekable stream (-1), std::map<std::string,...> iteration order (unsigned byte-lexicographic), std::sort on "
+                     "char (signed), std::set<toggle*> iteration order (a parameter of the model), nitro::format with one placeholder "
+                     "(modelled as concatenation), std::endl as a line feed; int overflow of `space` and the size_t wrap-around of "
+                     "max_width - left_pad are modelled for strings shorter than 2^31 bytes")
 
     def __init__(self):
         self._k2_cases = []
